@@ -90,13 +90,14 @@ var mids = [...]string{"MSGAAAAAAAA1", "MSGBBBBBBBB2", "MSGCCCCCCCC3"}
 // "an outbound MID is in at most one of out/sent"
 type preState struct {
 	out, sent, in [3]bool
+	both          [3]bool // pre-state had the MID in out/ and sent/ at once
 }
 
 func buildPre(h *DirHandler, U int) preState {
 	var st preState
 	symAssume(h.Prepare() == nil)
 	for i := 0; i < U; i++ {
-		switch symInt(0, 2) {
+		switch symInt(0, 3) {
 		case 1:
 			st.out[i] = true
 			symAssume(h.AddOut(mkMessage(mids[i], "N1CALL", "", false, "out "+mids[i]+"\r\n")) == nil)
@@ -104,6 +105,14 @@ func buildPre(h *DirHandler, U int) preState {
 			st.sent[i] = true
 			symAssume(h.AddOut(mkMessage(mids[i], "N1CALL", "", false, "out "+mids[i]+"\r\n")) == nil)
 			symAssume(os.Rename(path.Join(h.MBoxPath, DIR_OUTBOX, mids[i]+Ext), path.Join(h.MBoxPath, DIR_SENT, mids[i]+Ext)) == nil)
+		case 3:
+			// a stale copy of a queued message in sent/ (the state AddOut leaves
+			// behind when a MID that was sent before is queued again)
+			st.out[i], st.sent[i], st.both[i] = true, true, true
+			symAssume(h.AddOut(mkMessage(mids[i], "N1CALL", "", false, "out "+mids[i]+"\r\n")) == nil)
+			b, err := ioutil.ReadFile(path.Join(h.MBoxPath, DIR_OUTBOX, mids[i]+Ext))
+			symAssume(err == nil)
+			symAssume(ioutil.WriteFile(path.Join(h.MBoxPath, DIR_SENT, mids[i]+Ext), b, 0644) == nil)
 		}
 		if symInt(0, 1) == 1 {
 			st.in[i] = true
@@ -154,7 +163,7 @@ func H_c10_step() {
 	case 1: // SetSent (only ever called for a message in the outbox)
 		symAssume(st.out[i])
 		h.SetSent(mids[i], symInt(0, 1) == 1)
-		st.out[i], st.sent[i] = false, true
+		st.out[i], st.sent[i], st.both[i] = false, true, false
 	case 2: // SetDeferred
 		symAssume(st.out[i])
 		h.SetDeferred(mids[i])
@@ -200,7 +209,7 @@ func H_c10_step() {
 		symAssert(has(out, mids[k]) == st.out[k], "outbox-equals-model")
 		symAssert(has(sent, mids[k]) == st.sent[k], "sent-equals-model")
 		symAssert(has(in, mids[k]) == st.in[k], "inbox-equals-model")
-		symAssert(!(st.out[k] && st.sent[k]), "outbound-in-exactly-one-of-out/sent")
+		symAssert(st.both[k] || !(st.out[k] && st.sent[k]), "outbound-in-exactly-one-of-out/sent")
 	}
 	symAssert(h.OutboxCount() == len(out) && h.SentCount() == len(sent) && h.InboxCount() == len(in), "counts")
 	symReach("end")
@@ -349,6 +358,80 @@ func H_c12_paths() {
 	symReach("end")
 }
 
+// C12 K2: header content chosen by the remote.  A received message carries a
+// header field (one of the mailbox-private names or an ordinary one) whose
+// value is path-like: a sibling of the mailbox, a dot-dot path, or an
+// arbitrary short string over the path alphabet.  It is stored, loaded back
+// and its read flag rewritten; every path handed to the file system has to
+// lie inside the mailbox.
+func H_c12_headers() {
+	L := symParam("L", 3)
+	root := mboxRoot()
+	h := NewDirHandler(root, false)
+	symAssume(h.Prepare() == nil)
+	name := [...]string{"X-FilePath", "X-Unread", "X-P2POnly", "Subject", "X-Filepath", "Mbo"}[symInt(0, 5)]
+	var value string
+	switch symInt(0, 3) {
+	case 0:
+		value = path.Join(path.Dir(root), "evil"+Ext) // a sibling of the mailbox directory
+	case 1:
+		value = "../../evil" + Ext
+	case 2:
+		value = path.Join(root, "in") + "/../../evil" + Ext
+	case 3:
+		value = symString(symInt(1, L))
+		for i := 0; i < len(value); i++ {
+			symAssume(value[i] == '.' || value[i] == '/' || value[i] == 'a')
+		}
+		symAssume(value[0] != ' ' && value[len(value)-1] != ' ')
+	}
+	msg := mkMessage(mids[0], "N0CALL", "", false, "b\r\n")
+	msg.Header.Set(name, value)
+	start := symFSPathCount()
+	func() {
+		defer func() { recover() }()
+		h.ProcessInbound(msg)
+		inbox, _ := h.Inbox()
+		for _, m := range inbox {
+			SetUnread(m, false)
+			SetUnread(m, true)
+		}
+		h.GetInboundAnswer(*fbb.NewProposal(mids[0], "t", fbb.Wl2kProposal, []byte("x")))
+	}()
+	if symEngine() {
+		for i := start; i < symFSPathCount(); i++ {
+			symAssert(under(symFSPath(i), root), "every-path-handed-to-the-file-system-lies-inside-the-mailbox-directory")
+		}
+	} else {
+		symAssert(!strayFiles(root), "every-path-handed-to-the-file-system-lies-inside-the-mailbox-directory")
+	}
+	symReach("end")
+}
+
+// natively: did a regular file appear under the temporary base directory but
+// outside the mailbox directory?
+func strayFiles(root string) bool {
+	base := path.Dir(path.Dir(path.Dir(root)))
+	bad := false
+	var walk func(d string)
+	walk = func(d string) {
+		ents, _ := ioutil.ReadDir(d)
+		for _, e := range ents {
+			p := path.Join(d, e.Name())
+			if p == root {
+				continue
+			}
+			if e.IsDir() {
+				walk(p)
+			} else {
+				bad = true
+			}
+		}
+	}
+	walk(base)
+	return bad
+}
+
 func c12Op(h *DirHandler, mid string) {
 	switch symInt(0, 3) {
 	case 0:
@@ -450,6 +533,62 @@ func H_c11_crash() {
 		symReach("answered-already-received")
 		b, rerr := ioutil.ReadFile(path.Join(root, "in", mids[0]+Ext))
 		symAssert(rerr == nil && string(b) == string(wantIn), "already-received-only-with-a-complete-copy-in-the-inbox")
+	}
+	symReach("end")
+}
+
+// C10 K3 (also the receiving half of C02): a storage error is reported.  One
+// of the file-system operations of ProcessInbound / AddOut fails with an I/O
+// error (nothing done, or a prefix written first: disk full).  The call must
+// not report success unless the message is stored completely; whatever
+// happened, the folders still load and a proposal for the MID is rejected only
+// if a complete copy is in the inbox.
+func H_c10_store_error() {
+	root := mboxRoot()
+	h := NewDirHandler(root, false)
+	symAssume(h.Prepare() == nil)
+	symAssume(h.ProcessInbound(mkMessage(mids[1], "N0CALL", "", false, "other inbound\r\n")) == nil)
+	op := symInt(0, 1)
+	k := symInt(1, symParam("KMAX", 3))
+	msg := mkMessage(mids[0], "N0CALL", "", false, "the message being stored when the disk fails\r\n")
+	want, _ := func() ([]byte, error) {
+		c := mkMessage(mids[0], "N0CALL", "", false, "the message being stored when the disk fails\r\n")
+		if op == 0 {
+			c.Header.Set("X-Unread", "true")
+		}
+		return c.Bytes()
+	}()
+	symFSFailAt(symFSOps() + k)
+	var err error
+	folder := "in"
+	if op == 0 {
+		err = h.ProcessInbound(msg)
+	} else {
+		folder = "out"
+		msg = mkMessage(mids[0], "N1CALL", "", false, "the message being stored when the disk fails\r\n")
+		want, _ = msg.Bytes()
+		err = h.AddOut(msg)
+	}
+	failed := symFSOps() >= 0 // the fault point may lie beyond the operation's last call
+	_ = failed
+	symFSFailAt(0)
+	data, rerr := ioutil.ReadFile(path.Join(root, folder, mids[0]+Ext))
+	complete := rerr == nil && string(data) == string(want)
+	if err == nil {
+		symReach("reported-ok")
+		symAssert(complete, "success-reported-only-if-the-message-is-stored-completely")
+	} else {
+		symReach("reported-error")
+	}
+	// restart
+	h2 := NewDirHandler(root, false)
+	symAssert(h2.Prepare() == nil, "prepare-after-a-storage-error")
+	_, e1 := h2.Inbox()
+	_, e2 := h2.Outbox()
+	symAssert(e1 == nil && e2 == nil, "folders-load-after-a-storage-error")
+	if op == 0 {
+		ans := h2.GetInboundAnswer(*fbb.NewProposal(mids[0], "t", fbb.Wl2kProposal, []byte("x")))
+		symAssert(ans != fbb.Reject || complete, "already-received-only-if-a-complete-copy-is-in-the-inbox")
 	}
 	symReach("end")
 }
